@@ -14,7 +14,7 @@ CHECKS = {
     "C18": dict(
         level="model_checking", engine="M (MIR->SMT) + driver replay",
         technique="SMT over MIR-translated bodies: panic conditions of all numeric function kernels, size arithmetic of Map/Reduce/Join/Set as an inductive step with havocked inputs, Intervals<i64>::values_len; replay through the real API",
-        text="Kernel-level totality: for all 64-bit / double inputs the panic condition of every numeric kernel of function.rs is decided, NaN production at finite inputs is decided for the non-transcendental float kernels; the size arithmetic of each relation constructor is checked for every input size >= 0 and every LIMIT/OFFSET (one inductive step covers relation trees of any depth); values_len is checked against the hull width for every interval. Pipeline-level totality (sqlparser, builders, todo!()) is outside.",
+        text="Kernel-level totality: for all 64-bit / double inputs the panic condition of every numeric kernel of function.rs is decided, NaN production at finite inputs is decided for the non-transcendental float kernels, +-inf production for all float kernels (libm calls uninterpreted, constrained by their IEEE boundary facts); the size arithmetic of each relation constructor is checked for every input size >= 0 and every LIMIT/OFFSET (one inductive step covers relation trees of any depth); values_len is checked against the hull width for every interval. Pipeline-level totality (sqlparser, builders, todo!()) is outside.",
         note="Trusted: MIR translation + callee table + stubs listed in evidence (from_interval panics iff min>max; input sizes arbitrary with 0<=max). Every counterexample is replayed through Function::value/super_image or SQL->Relation before being reported.",
         design="3 C18"),
     "C15": dict(
@@ -44,14 +44,14 @@ CHECKS = {
     "C10": dict(
         level="model_checking", engine="M kernels + expression evaluator + driver",
         technique="SMT (bit-vectors + IEEE doubles): for generated (struct type, predicate) pairs the real DataType::filter result is compared against every row of the type on which the predicate - evaluated with the MIR-translated kernels - is true; SQLite + real contains replay",
-        text="For each of ~350 (quick) / 5000 (thorough) generated pairs of a struct type and a predicate, the real filter narrowing is run and the solver searches all rows of the type (2^64-2^192, NULLs included) for one that satisfies the predicate and is missing from the narrowed type. Types and predicates are generated (bounded, seeded); rows are symbolic.",
+        text="For each of ~350 (quick) / 5000 (thorough) generated pairs of a struct type and a predicate, the real filter narrowing is run and the solver searches all rows of the type (2^64-2^192, NULLs included) for one that satisfies the predicate and is missing from the narrowed type. Types and predicates are generated (bounded, seeded); rows are symbolic. The Date / Time / DateTime / Text variants of the comparison kernels (>, <, >=, <=, least, greatest), opaque to the predicate encoder, are decided against the integer variant for all pairs of arguments read as points of an ordered line (part K).",
         note="Trusted: lib/exprsem.py dispatch model over MIR-translated kernels (SQL NULL semantics); every counterexample is re-evaluated by SQLite on the library's own SQL rendering and by the real contains.",
         design="3 C10"),
     "C06": dict(
         level="model_checking", engine="M kernels + expression evaluator + driver",
         technique="SMT (bit-vectors + IEEE doubles; non-linear integer arithmetic for the hull lemmas; reals for aggregates): real super_image results on a grid of argument types / generated expression trees vs. every point of the argument box evaluated with the MIR-translated kernels; hull-of-corners lemmas with symbolic boxes; aggregates over lists of <= 3 symbolic elements",
         text="For the supported core (arithmetic, comparison, boolean, rounding, cast, CASE/COALESCE/IS NULL/IN, sum/mean/min/max/count/first/last/var/std) the real range propagation is run on ~1000 (quick) typed argument boxes and expression trees and the solver searches each whole box (up to 2^192 points, NULL flags included) for a value outside the propagated range; integer kernels are additionally checked against the hull of their corner values for symbolic boxes. Types and expression shapes are a grid (stated); points are symbolic.",
-        note="Trusted: dispatch / NULL model of Expr::value (lib/exprsem.py) - each counterexample is replayed with the real Expr::value and contains; aggregate definitions restated from function.rs. Outside: text/date/regex functions, transcendental kernels (uninterpreted), inputs on which a kernel panics (C18), integers beyond 2^53 meeting floats (known finding).",
+        note="Trusted: dispatch / NULL model of Expr::value (lib/exprsem.py) - each counterexample is replayed with the real Expr::value and contains; aggregate definitions restated from function.rs. Outside: text/date/regex functions, pow; sin/cos/exp/ln/log/sqrt are decided against a piecewise-monotone envelope on a grid of concrete argument intervals (part E); inputs on which a kernel panics (C18); integers beyond 2^53 meeting floats (known findings).",
         design="3 C06"),
     "C07": dict(
         level="translation_validation", engine="S (SymRel) + M lemma + SQLite replay",
@@ -62,7 +62,7 @@ CHECKS = {
     "C14": dict(
         level="translation_validation", engine="S (SymRel) + M kernels + SQLite replay",
         technique="SMT: symbolic execution of the emitted Relation over all constraint-respecting databases of <= K rows looking for duplicate values in columns flagged Unique/PrimaryKey; injectivity of the kernels of functions listed as bijections over all 64-bit inputs; SQLite replay",
-        text="For every node of every compiled program whose schema flags a column unique, the solver searches all databases (<= 2/3 rows per table, base constraints assumed) for two output rows with the same non-NULL value; the functions through which the flag is propagated (is_bijection) are checked for injectivity on their whole 64-bit domain when their kernel is translatable.",
+        text="For every node of every compiled program whose schema flags a column unique, the solver searches all databases (<= 2/3 rows per table, base constraints assumed) for two output rows with the same non-NULL value; the functions through which the flag is propagated (is_bijection) are checked for injectivity on their whole 64-bit domain when their kernel is translatable. The catalogue includes literal Values relations (every list over {1,2,3} of length <= 3 and some longer ones) and arithmetic on unique columns.",
         note="Trusted: lib/symrel.py semantics (SQLite-confirmed reports only); MIR translation. Known findings: CAST AS INTEGER / CAST AS FLOAT are not one-to-one.",
         design="3 C14"),
     "C05": dict(
@@ -81,7 +81,7 @@ CHECKS = {
         level="translation_validation", engine="S (SymRel) + SQLite replay",
         technique="SMT (non-linear real arithmetic): the DP-rewritten relation with every Box-Muller term replaced by 0 and the original relation are executed symbolically on the same database (enumerated key layouts, symbolic in-range measures); group sets and COUNT/SUM/AVG are compared; SQLite replay with RANDOM() overridden",
         text="For each aggregation query (ungrouped or grouped by public keys) the neutralised DP relation and the original relation are compared on every database of <= 2/3 rows per table whose measures lie in the declared ranges and whose units stay within the multiplicity the clip bound allows: original groups must be present with equal COUNT/SUM/AVG (a NULL aggregate of an empty group may become 0) and extra groups must be empty.",
-        note="Trusted: structural neutralisation of the noise term; lib/symrel.py semantics over reals; SQLite-confirmed reports only (tolerance 1e-6). VAR/STD not yet encoded.",
+        note="Trusted: structural neutralisation of the noise term; lib/symrel.py semantics over reals; SQLite-confirmed reports only (tolerance 1e-6). VARIANCE / STDDEV are compared with the population or the sample moment of the data. A difference that only the final clamp to the declared range introduces is asked separately (known finding for outer joins).",
         design="3 C09"),
     "C04": dict(
         level="translation_validation", engine="S (SymRel) + M (gaussian_tau glue) + driver",
